@@ -10,7 +10,7 @@ PROP = {
          "thorough": {"cases": 300000, "max_size": 100, "workers": 12, "case_alarm": 60}},
         {"target": "c03_fdevents_fuzz", "sub": "fdevents",
          "quick": {"runs": 25000, "max_len": 500, "workers": 3, "unit_timeout": 60},
-         "thorough": {"runs": 600000, "max_len": 700, "workers": 4, "unit_timeout": 60}},
+         "thorough": {"runs": 350000, "max_len": 700, "workers": 4, "unit_timeout": 60}},
     ],
     "assumptions": [
         "callers stay within the asserted / documented preconditions: an event is never deleted inside its own callback (deferred delete through runNext instead), a descriptor is closed only after all its events were disabled, an event of a closed descriptor is never enabled again",
